@@ -39,6 +39,30 @@ class ExecutionContext:
 
         return result
 
+    def __Cast(self, targetType: LinearIR.Type, var):
+        """Convert a value to the target type; vectors and matrices are
+        converted component by component."""
+        if targetType.IsVector():
+            return [self.__Cast(targetType.ElementType, v) for v in var]
+        elif targetType.IsMatrix():
+            return [
+                [self.__Cast(targetType.ElementType, v) for v in row]
+                for row in var
+            ]
+
+        assert targetType.IsScalar()
+
+        if isinstance(targetType, LinearIR.IntegerType):
+            if not targetType.Unsigned:
+                return math.floor(var)
+            else:
+                return abs(math.floor(var))
+        else:
+            # Must be float
+            assert isinstance(targetType, LinearIR.FloatType)
+
+            return float(var)
+
     def __Divide(self, resultType: LinearIR.Type, a, b):
         """Division of two scalars. Integer division truncates toward zero,
         as in C; Python's ``/`` would produce a float and ``//`` rounds toward
@@ -311,21 +335,7 @@ class ExecutionContext:
                 case LinearIR.OpCode.CAST:
                     ref = instruction.Reference
                     var = localScope[instruction.Value.Reference]
-
-                    assert instruction.Type.IsScalar()
-
-                    if isinstance(instruction.Type, LinearIR.IntegerType):
-                        if not instruction.Type.Unsigned:
-                            var = math.floor(var)
-                        else:
-                            var = abs(math.floor(var))
-                    else:
-                        # Must be float
-                        assert isinstance(instruction.Type, LinearIR.FloatType)
-
-                        var = float(var)
-
-                    localScope[ref] = var
+                    localScope[ref] = self.__Cast(instruction.Type, var)
                 case LinearIR.OpCode.CONSTRUCT_PRIMITIVE:
                     ref = instruction.Reference
                     if instruction.Type.Kind == LinearIR.TypeKind.Vector:
